@@ -1,0 +1,88 @@
+//go:build verif
+
+// Verification hooks (build tag "verif"): add-only access to unexported pieces of the collecting
+// process for the checks under /verif. Nothing here is compiled without the tag.
+
+package collector
+
+import (
+	"bytes"
+	"sort"
+	"time"
+
+	"github.com/vmware/go-ipfix/pkg/entities"
+)
+
+// VerifClock and VerifTimer export the unexported clock/timer interfaces.
+type VerifClock = clock
+type VerifTimer = timer
+
+// VerifInitCollectingProcess is initCollectingProcess with an external clock (nil: real clock).
+func VerifInitCollectingProcess(input CollectorInput, c VerifClock) (*CollectingProcess, error) {
+	if c == nil {
+		c = realClock{}
+	}
+	return initCollectingProcess(input, c)
+}
+
+// VerifDecodePacket runs decodePacket on buf; the decoded message (if any) is taken off the
+// unbuffered message channel so that the call returns. Panics propagate to the caller.
+func (cp *CollectingProcess) VerifDecodePacket(buf []byte, exportAddress string) (*entities.Message, error) {
+	done := make(chan struct{})
+	defer close(done)
+	go func() {
+		select {
+		case <-cp.messageChan:
+		case <-done:
+		}
+	}()
+	return cp.decodePacket(bytes.NewBuffer(buf), exportAddress)
+}
+
+// VerifAddTemplate installs a template directly (as decodeTemplateSet would after decoding).
+func (cp *CollectingProcess) VerifAddTemplate(obsDomainID uint32, templateID uint16, ies []*entities.InfoElement) error {
+	elements := make([]entities.InfoElementWithValue, len(ies))
+	for i, ie := range ies {
+		e, err := entities.DecodeAndCreateInfoElementWithValue(ie, nil)
+		if err != nil {
+			return err
+		}
+		elements[i] = e
+	}
+	cp.addTemplate(obsDomainID, templateID, elements)
+	return nil
+}
+
+// VerifTemplate is a read-only view of one stored template.
+type VerifTemplate struct {
+	ObsDomainID uint32
+	TemplateID  uint16
+	IEs         []*entities.InfoElement
+	ExpiryTime  time.Time
+	Timer       VerifTimer
+}
+
+// VerifTemplates returns the stored templates sorted by (domain, id), and the number of
+// observation domains present in the outer map (to observe pruning of empty domains).
+func (cp *CollectingProcess) VerifTemplates() ([]VerifTemplate, int) {
+	cp.mutex.RLock()
+	defer cp.mutex.RUnlock()
+	out := []VerifTemplate{}
+	for d, m := range cp.templatesMap {
+		for id, t := range m {
+			out = append(out, VerifTemplate{d, id, t.ies, t.expiryTime, t.expiryTimer})
+		}
+	}
+	sort.Slice(out, func(i, j int) bool {
+		if out[i].ObsDomainID != out[j].ObsDomainID {
+			return out[i].ObsDomainID < out[j].ObsDomainID
+		}
+		return out[i].TemplateID < out[j].TemplateID
+	})
+	return out, len(cp.templatesMap)
+}
+
+// VerifServerTLSConfig exposes createServerConfig.
+func (cp *CollectingProcess) VerifServerTLSConfig() (interface{}, error) {
+	return cp.createServerConfig()
+}
